@@ -4,18 +4,24 @@
   GIVerif/Lemmas/AnnParse{Total,Caret}.lean, the model in GIVerif/Model/AnnParse*.lean.
 
   Proved here for ALL strings: the tokenizer layer (`_parse_annotations`,
-  `_parse_annotation`, the option parsers, `_parse_fields`) and the message log.
-  Every partial Python operation of that layer (`len(x)`, `x[0]`, `x[1]` on a value that
-  could be `None` or too short) is an explicit `Except PyErr` step of the model, so
-  "never raises" is a statement about reachability.  The block level (line matchers, the
-  state machine, `validate`) is covered by the differential harness and the
-  statement-level oracles of harness/c11.py on the real parser, not by a theorem.
+  `_parse_annotation`, the option parsers, `_parse_fields`), the block state machine
+  `parseBlock` (= `parse_comment_block` up to, not including, the final `validate()`) and the
+  message log.  Every partial Python operation of these layers (`len(x)`, `x[0]`, `x[1]` on a
+  value that could be `None` or too short, `comment_lines[-1]`, `line_indent <= part_indent`
+  with `part_indent` None, `current_part.description` with `current_part` None, a `None`
+  annotation name used as a key) is an explicit `Except PyErr` step of the model, so "never
+  raises" is a statement about reachability (C11_ann_total, C11_block_total).  `validate()` is the
+  one place where the unchanged tree DOES raise (C11_validate_len_counterexample / _partial).
+  The line / caret clauses at block level are covered by the model correspondence (every
+  diagnostic with line, caret and quoted line is compared with the real parser) and by the
+  statement-level oracles of harness/c11.py, not by a theorem.
 
   Hypotheses beyond the property's wording: C11_caret assumes what the caller guarantees,
   `col + fields.length ≤ line.length` (the field is a slice of the line starting at `col`);
   `str.lower()` is modelled character-wise from CPython's table (no final-sigma rule).
 -/
 import GIVerif.Lemmas.AnnParseCaret
+import GIVerif.Lemmas.AnnParseBlockTotal
 
 namespace GIVerif.AnnParse
 open GIVerif.Py
@@ -46,6 +52,22 @@ theorem C11_fields_total (po vd : Bool) (col : Nat) (fields : Str) (init : Optio
     split
     · split <;> exact ⟨_, rfl⟩
     · exact ⟨_, rfl⟩
+
+/-- Totality of the block state machine: for EVERY comment text and line number,
+    `parse_comment_block` (up to the final `validate()`) returns a block or `None` together with the
+    diagnostics it logged; none of its partial operations (`comment_lines[-1]`, `line_indent <=
+    part_indent`, `current_part.description`, `annotations[name]` with a `None` name, the
+    `len()`/`[i]` of the `Attributes:` tag) is reached with a bad argument. -/
+theorem C11_block_total (comment : Str) (lineno : Nat) :
+    ∃ (b : Option BlockM) (d : List BDiag), parseBlock comment lineno = .ok (b, d) := by
+  obtain ⟨⟨b, d⟩, h⟩ := parseBlock_ok comment lineno
+  exact ⟨b, d, h⟩
+
+/-- ... in particular a failing annotation field never stops the loop: the line is processed and the
+    loop goes on with a state that again satisfies the loop invariant -/
+theorem C11_line_total (h : Hdr) (st : BSt) (ln : Nat) (line : Str) (hinv : BInv st) :
+    ∃ st', lineStep h st ln line = .ok st' ∧ BInv st' :=
+  lineStep_ok h st ln line hinv
 
 /-- Atomicity: when the tokenizer rejects a field (unbalanced / unexpected parentheses), the
     part's annotations are exactly as before — on a first line the part keeps no annotation,
@@ -253,6 +275,14 @@ example : parseAnnotations true 2 (str "(in) (in-out) (in)") (some [(str "skip",
       [⟨.warning, .inoutDeprecated, 7⟩, ⟨.error, .multipleAnn, 19⟩] := by decide +kernel
 
 example : (parseAnnotation 0 (str "attribute")).toOption.map (·.1) = some none := by decide +kernel
+
+example : (parseBlock (str "/**\n * foo: ((skip)\n * @p: (in\n * out)\n */") 10).toOption =
+    some (some (BlockM.mk (str "foo") 10 [] none
+                  [(str "p", PartM.mk (str "p") 12 [] none none (some (str "out)")))] none [] [] [] [str " ", str " ", str " "]),
+          [⟨.error, .unexpectedParens, 11, some 9, some (str " * foo: ((skip)")⟩,
+           ⟨.error, .unbalancedParens, 12, some 9, some (str " * @p: (in")⟩]) := by decide +kernel
+
+example : BInv BSt.init := by simp [BInv, BSt.init]
 
 example : ((Logger.new false).logAll [.warning, .error, .warning]).warningCount = 3 := by decide
 example : warnFatalFails true ((Logger.new false).logAll [.warning]) = true := by decide
